@@ -44,8 +44,31 @@ Definition tterm_eqb (a b : tterm) : bool :=
 Definition ttriple_eqb (a b : ttriple) : bool :=
   let '(s, p, o) := a in let '(s', p', o') := b in tterm_eqb s s' && str_eqb p p' && tterm_eqb o o'.
 
-Definition plan_triples (pl : plan) : list ttriple :=
-  flat_map (fun sp => flat_map (fun po => map (fun o => (fst sp, fst po, o)) (snd po)) (snd sp)) pl.
+(* the nested blank nodes of the plan: label -> its own predicate list (objects there are IRIs, literals or labelled
+   blank nodes: ONE level).  A TBn l with l in this table is written as [ ... ] where it occurs as an object and has
+   no statement of its own; which nodes are nested is part of the observed plan. *)
+Definition nesttab := list (str * list (str * list tterm)).
+Fixpoint nlookup (n : nesttab) (l : str) : option (list (str * list tterm)) :=
+  match n with
+  | [] => None
+  | (k, v) :: r => if str_eqb k l then Some v else nlookup r l
+  end.
+
+Definition po_triples (s : tterm) (ps : list (str * list tterm)) : list ttriple :=
+  flat_map (fun po => map (fun o => (s, fst po, o)) (snd po)) ps.
+(* the triples an object stands for: the statement itself and, for a nested node, the node's own statements *)
+Definition obj_triples (n : nesttab) (s : tterm) (p : str) (o : tterm) : list ttriple :=
+  (s, p, o) :: match o with
+               | TBn l => match nlookup n l with Some ps => po_triples (TBn l) ps | None => [] end
+               | _ => []
+               end.
+Definition plan_triples (n : nesttab) (pl : plan) : list ttriple :=
+  flat_map (fun sp => flat_map (fun po => flat_map (obj_triples n (fst sp) (fst po)) (snd po)) (snd sp)) pl.
+(* the labels of the nested nodes in the order in which their brackets open in the text *)
+Definition obj_sup (n : nesttab) (o : tterm) : list str :=
+  match o with TBn l => match nlookup n l with Some _ => [l] | None => [] end | _ => [] end.
+Definition plan_sup (n : nesttab) (pl : plan) : list str :=
+  flat_map (fun sp => flat_map (fun po => flat_map (obj_sup n) (snd po)) (snd sp)) pl.
 
 (* ---- oracles *)
 Definition qtab := list ((bool * str) * (str * str)).     (* (verb position?, iri) -> (prefix, local as written) *)
@@ -97,32 +120,54 @@ Definition label_term (q : qtab) (t : tterm) : str :=
     end
   end.
 
-Definition sp4 : str := [32; 32; 32; 32].
-Definition sp8 : str := sp4 ++ sp4.
+(* indentation: indentString * n *)
+Definition ind (n : nat) : str := repeat 32 (4 * n).
 
-(* objectList: first object after a blank, the others on their own lines *)
-Definition obj_more (q : qtab) (x : tterm) : str := [44; 10] ++ sp8 ++ label_term q x.
-Definition write_objs (q : qtab) (os : list tterm) : str :=
-  match os with
-  | [] => []
-  | o :: r => [32] ++ label_term q o ++ flat_map (obj_more q) r
+Section Layer.
+  Variable q : qtab.
+  (* how an object is written inside an objectList of depth d *)
+  Variable wt : nat -> tterm -> str.
+
+  (* objectList at depth d (depth += 1 when there are several objects): first object after a blank, the others on
+     their own lines *)
+  Definition obj_more (d : nat) (x : tterm) : str := [44; 10] ++ ind (S d) ++ wt d x.
+  (* depthmod = (count == 1) and 0 or 1  is 1 for every count ("0 or 1") *)
+  Definition objs_depth (d : nat) (os : list tterm) : nat := S d.
+  Definition write_objs (d : nat) (os : list tterm) : str :=
+    match os with
+    | [] => []
+    | o :: r => [32] ++ wt (objs_depth d os) o ++ flat_map (obj_more (objs_depth d os)) r
+    end.
+  (* predicateList at depth d *)
+  Definition pred_more (d : nat) (po : str * list tterm) : str :=
+    [32; 59; 10] ++ ind (S d) ++ label_iri q true (fst po) ++ write_objs d (snd po).
+  Definition write_preds (d : nat) (ps : list (str * list tterm)) : str :=
+    match ps with
+    | [] => []
+    | (p, os) :: r => [32] ++ label_iri q true p ++ write_objs d os ++ flat_map (pred_more d) r
+    end.
+End Layer.
+
+(* inside a bracket: plain labels *)
+Definition wt_inner (q : qtab) (_ : nat) (t : tterm) : str := label_term q t.
+(* p_squared: depth += 2; "["; depth -= 1; predicateList; " ]"; depth -= 1 *)
+Definition wt_outer (q : qtab) (n : nesttab) (d : nat) (t : tterm) : str :=
+  match t with
+  | TBn l => match nlookup n l with
+             | Some ps => [91] ++ write_preds q (wt_inner q) (S d) ps ++ [32; 93]
+             | None => label_term q t
+             end
+  | _ => label_term q t
   end.
-(* predicateList *)
-Definition pred_more (q : qtab) (po : str * list tterm) : str :=
-  [32; 59; 10] ++ sp4 ++ label_iri q true (fst po) ++ write_objs q (snd po).
-Definition write_preds (q : qtab) (ps : list (str * list tterm)) : str :=
-  match ps with
-  | [] => []
-  | (p, os) :: r => [32] ++ label_iri q true p ++ write_objs q os ++ flat_map (pred_more q) r
-  end.
+
 (* statement + the newline serialize writes after it *)
-Definition write_stmt (q : qtab) (sp : tterm * list (str * list tterm)) : str :=
-  [10] ++ label_term q (fst sp) ++ write_preds q (snd sp) ++ [32; 46] ++ [10].
+Definition write_stmt (q : qtab) (n : nesttab) (sp : tterm * list (str * list tterm)) : str :=
+  [10] ++ label_term q (fst sp) ++ write_preds q (wt_outer q n) 0 (snd sp) ++ [32; 46] ++ [10].
 Definition prefix_line (pn : str * str) : str :=
   [64; 112; 114; 101; 102; 105; 120; 32] ++ fst pn ++ [58; 32; 60] ++ snd pn ++ [62; 32; 46; 10].
 Definition write_header (ns : nstab) : str := flat_map prefix_line ns.
-Definition write_doc (ns : nstab) (q : qtab) (pl : plan) : str :=
-  write_header ns ++ flat_map (write_stmt q) pl ++ [10].
+Definition write_doc (ns : nstab) (q : qtab) (n : nesttab) (pl : plan) : str :=
+  write_header ns ++ flat_map (write_stmt q n) pl ++ [10].
 
 (* ---- reader: lexer *)
 Inductive token :=
@@ -195,14 +240,17 @@ Definition resolve_word (env : nstab) (w : str) : option str :=
 Definition s_nil_word : str := [40; 41].
 Definition s_prefix_word : str := [64; 112; 114; 101; 102; 105; 120].
 
+(* the frame: inside a bracket, the statement the bracket is the object of *)
+Definition frame := option (tterm * str).
+
 Inductive rstate :=
 | RSubj                                   (* between statements *)
 | RPfx1 | RPfx2 (p : str) | RPfx3 (p ns : str)       (* inside an @prefix directive *)
-| RPred (s : tterm)
-| RObj (s : tterm) (p : str)
-| RStr (s : tterm) (p lex : str)          (* a quoted string has been read, its @lang / ^^ may follow *)
-| RDt (s : tterm) (p lex : str)
-| RAfter (s : tterm) (p : str).
+| RPred (f : frame) (s : tterm)
+| RObj (f : frame) (s : tterm) (p : str)
+| RStr (f : frame) (s : tterm) (p lex : str)   (* a quoted string has been read, its @lang / ^^ may follow *)
+| RDt (f : frame) (s : tterm) (p lex : str)
+| RAfter (f : frame) (s : tterm) (p : str).
 
 (* BLANK_NODE_LABEL: a word that starts with _: *)
 Definition bn_word (w : str) : option str :=
@@ -210,97 +258,111 @@ Definition bn_word (w : str) : option str :=
 
 Definition word_iri (env : nstab) (w : str) : option str :=
   if str_eqb w s_nil_word then Some rdf_nil_s else resolve_word env w.
+Definition s_open : str := [91].
+Definition s_close : str := [93].
 
-Fixpoint run (env : nstab) (st : rstate) (toks : list token) (acc : list ttriple) : option (list ttriple) :=
+(* sup: the labels the reader gives to the nodes that brackets introduce, in the order of the opening brackets *)
+Fixpoint run (env : nstab) (sup : list str) (st : rstate) (toks : list token) (acc : list ttriple)
+  : option (list ttriple) :=
   match toks with
   | [] => match st with RSubj => Some acc | _ => None end
   | t :: r =>
-    let after s p t :=          (* what may follow a complete object *)
+    (* what may follow a complete object *)
+    let after (acc' : list ttriple) f s p :=
       match t with
-      | KComma => run env (RObj s p) r acc
-      | KWord w => if str_eqb w [59] then run env (RPred s) r acc
-                   else if str_eqb w [46] then run env RSubj r acc else None
+      | KComma => run env sup (RObj f s p) r acc'
+      | KWord w => if str_eqb w [59] then run env sup (RPred f s) r acc'
+                   else if str_eqb w s_close then
+                          match f with Some (os, op) => run env sup (RAfter None os op) r acc' | None => None end
+                   else if str_eqb w [46] then
+                          match f with None => run env sup RSubj r acc' | Some _ => None end
+                   else None
       | _ => None
       end in
     match st with
     | RSubj =>
       match t with
-      | KIri u => run env (RPred (TIri u)) r acc
+      | KIri u => run env sup (RPred None (TIri u)) r acc
       | KWord w => match bn_word w with
-                   | Some l => run env (RPred (TBn l)) r acc
+                   | Some l => run env sup (RPred None (TBn l)) r acc
                    | None =>
-                     if str_eqb w s_prefix_word then run env RPfx1 r acc
-                     else match word_iri env w with Some u => run env (RPred (TIri u)) r acc | None => None end
+                     if str_eqb w s_prefix_word then run env sup RPfx1 r acc
+                     else match word_iri env w with Some u => run env sup (RPred None (TIri u)) r acc | None => None end
                    end
       | _ => None
       end
     | RPfx1 => match t with
                | KWord w => let '(pre, rest) := span (fun c => negb (c =? 58)) w in
-                            match rest with [_] => run env (RPfx2 pre) r acc | _ => None end
+                            match rest with [_] => run env sup (RPfx2 pre) r acc | _ => None end
                | _ => None
                end
-    | RPfx2 p => match t with KIri ns => run env (RPfx3 p ns) r acc | _ => None end
+    | RPfx2 p => match t with KIri ns => run env sup (RPfx3 p ns) r acc | _ => None end
     | RPfx3 p ns => match t with
-                    | KWord w => if str_eqb w [46] then run ((p, ns) :: env) RSubj r acc else None
+                    | KWord w => if str_eqb w [46] then run ((p, ns) :: env) sup RSubj r acc else None
                     | _ => None
                     end
-    | RPred s =>
+    | RPred f s =>
       match t with
-      | KIri u => run env (RObj s u) r acc
-      | KWord w => if str_eqb w [97] then run env (RObj s rdf_type_s) r acc
-                   else match word_iri env w with Some u => run env (RObj s u) r acc | None => None end
+      | KIri u => run env sup (RObj f s u) r acc
+      | KWord w => if str_eqb w [97] then run env sup (RObj f s rdf_type_s) r acc
+                   else if str_eqb w s_close then          (* [ ] : a node without statements *)
+                          match f with Some (os, op) => run env sup (RAfter None os op) r acc | None => None end
+                   else match word_iri env w with Some u => run env sup (RObj f s u) r acc | None => None end
       | _ => None
       end
-    | RObj s p =>
+    | RObj f s p =>
       match t with
-      | KIri u => run env (RAfter s p) r (acc ++ [(s, p, TIri u)])
-      | KStr v => run env (RStr s p v) r acc
+      | KIri u => run env sup (RAfter f s p) r (acc ++ [(s, p, TIri u)])
+      | KStr v => run env sup (RStr f s p v) r acc
       | KWord w =>
         match bn_word w with
-        | Some l => run env (RAfter s p) r (acc ++ [(s, p, TBn l)])
+        | Some l => run env sup (RAfter f s p) r (acc ++ [(s, p, TBn l)])
         | None =>
-        if is_int_lex w then run env (RAfter s p) r (acc ++ [(s, p, TLit w None (Some xsd_integer_s))])
+        if str_eqb w s_open then
+          match f, sup with
+          | None, l :: sup' => run env sup' (RPred (Some (s, p)) (TBn l)) r (acc ++ [(s, p, TBn l)])
+          | _, _ => None                                   (* one level only *)
+          end
+        else if is_int_lex w then run env sup (RAfter f s p) r (acc ++ [(s, p, TLit w None (Some xsd_integer_s))])
         else if str_eqb w s_true || str_eqb w s_false
-             then run env (RAfter s p) r (acc ++ [(s, p, TLit w None (Some xsd_boolean_s))])
+             then run env sup (RAfter f s p) r (acc ++ [(s, p, TLit w None (Some xsd_boolean_s))])
         else match word_iri env w with
-             | Some u => run env (RAfter s p) r (acc ++ [(s, p, TIri u)])
+             | Some u => run env sup (RAfter f s p) r (acc ++ [(s, p, TIri u)])
              | None => None
              end
         end
       | _ => None
       end
-    | RStr s p v =>
+    | RStr f s p v =>
       match t with
-      | KLang l => run env (RAfter s p) r (acc ++ [(s, p, TLit v (Some l) None)])
-      | KDt => run env (RDt s p v) r acc
-      | KComma => run env (RObj s p) r (acc ++ [(s, p, TLit v None None)])
-      | KWord w => if str_eqb w [59] then run env (RPred s) r (acc ++ [(s, p, TLit v None None)])
-                   else if str_eqb w [46] then run env RSubj r (acc ++ [(s, p, TLit v None None)]) else None
-      | _ => None
+      | KLang l => run env sup (RAfter f s p) r (acc ++ [(s, p, TLit v (Some l) None)])
+      | KDt => run env sup (RDt f s p v) r acc
+      | _ => after (acc ++ [(s, p, TLit v None None)]) f s p
       end
-    | RDt s p v =>
+    | RDt f s p v =>
       match t with
-      | KIri d => run env (RAfter s p) r (acc ++ [(s, p, TLit v None (Some d))])
+      | KIri d => run env sup (RAfter f s p) r (acc ++ [(s, p, TLit v None (Some d))])
       | KWord w => match word_iri env w with
-                   | Some d => run env (RAfter s p) r (acc ++ [(s, p, TLit v None (Some d))])
+                   | Some d => run env sup (RAfter f s p) r (acc ++ [(s, p, TLit v None (Some d))])
                    | None => None
                    end
       | _ => None
       end
-    | RAfter s p => after s p t
+    | RAfter f s p => after acc f s p
     end
   end.
 
-Definition read_doc (text : str) : option (list ttriple) :=
+Definition read_doc (sup : list str) (text : str) : option (list ttriple) :=
   let toks := lexs 0 text in
   if existsb (fun t => match t with KBad => true | _ => false end) toks then None
-  else run [] RSubj toks [].
+  else run [] sup RSubj toks [].
 
 (* ---- suite *)
-Record ts_case := { ts_g : list ttriple; ts_ns : nstab; ts_q : qtab; ts_plan : plan }.
+Record ts_case := { ts_g : list ttriple; ts_ns : nstab; ts_q : qtab; ts_nest : nesttab; ts_plan : plan }.
 Definition ts_obs := (str * option (list ttriple))%type.    (* the text ; the triples read from it *)
 Definition ts_model (c : ts_case) : ts_obs :=
-  let text := write_doc (ts_ns c) (ts_q c) (ts_plan c) in (text, read_doc text).
+  let text := write_doc (ts_ns c) (ts_q c) (ts_nest c) (ts_plan c) in
+  (text, read_doc (plan_sup (ts_nest c) (ts_plan c)) text).
 Definition ts_obs_eqb (a b : ts_obs) : bool :=
   str_eqb (fst a) (fst b) && opt_eqb (list_eqb ttriple_eqb) (snd a) (snd b).
 (* the property on this layer: the text reads back as exactly the triples of the plan, in order *)
@@ -308,5 +370,5 @@ Definition tmem (t : ttriple) (l : list ttriple) : bool := existsb (ttriple_eqb 
 Definition tset_eqb (a b : list ttriple) : bool := forallb (fun t => tmem t b) a && forallb (fun t => tmem t a) b.
 (* ... and the plan (orderSubjects / buildPredicateHash / sortProperties of the serialiser) covers the graph *)
 Definition ts_spec (c : ts_case) (o : ts_obs) : bool :=
-  opt_eqb (list_eqb ttriple_eqb) (snd o) (Some (plan_triples (ts_plan c))) &&
-  tset_eqb (plan_triples (ts_plan c)) (ts_g c).
+  opt_eqb (list_eqb ttriple_eqb) (snd o) (Some (plan_triples (ts_nest c) (ts_plan c))) &&
+  tset_eqb (plan_triples (ts_nest c) (ts_plan c)) (ts_g c).
